@@ -274,3 +274,5 @@ def run(ctx):
     r2(ctx, fs)
     r3(ctx, fs)
     r4(ctx, fs)
+    # the exactly-one over the value literals is sat_core::new_exct_one / new_at_most_one (C13, which rests on C07)
+    ctx.include('C13')
